@@ -56,6 +56,11 @@ fn c11_scripts() -> Vec<(&'static str, [Vec<Step>; 2])> {
         ("fc-uni", [vec![OpenUni, Write { slot: 0, n: 4 }, Write { slot: 0, n: 3 }], vec![AcceptUni]]),
         ("fc-uni-back", [vec![AcceptUni], vec![OpenUni, Write { slot: 0, n: 4 }, Write { slot: 0, n: 3 }, Shutdown { slot: 0 }]]),
         ("fc-two", [vec![OpenBi, OpenUni, Write { slot: 0, n: 4 }, Write { slot: 1, n: 4 }], vec![AcceptBi, AcceptUni]]),
+        // a reset while written bytes are still held back by a window: the final size is the
+        // credit the stream consumes at both levels
+        // (one write larger than any window: the writer accepts it whole once it is ready)
+        ("fc-cancel", [vec![OpenUni, Write { slot: 0, n: 6 }, Cancel { slot: 0, code: 7 }], vec![AcceptUni]]),
+        ("fc-cancel-back", [vec![AcceptUni], vec![OpenUni, Write { slot: 0, n: 6 }, Cancel { slot: 0, code: 7 }]]),
     ]
 }
 
@@ -107,7 +112,7 @@ pub fn run(args: &Args, prefix: &str) -> i32 {
     let mut report = Report::new(args, "model_checking");
     report.assume("two unmodified endpoints; packets travel as bytes and are re-parsed by the real FrameReader; ack/loss feedback mirrors AckDataSpace::recv_frame / DataTracker::may_loss");
     report.assume("canonical state = Debug dumps of the real DataStreams, FlowController, reliable-frame deque of both endpoints (pointer values masked) + in-flight packets + reference model");
-    report.assume("application polls use a no-op waker; wake-up correctness is C16's subject — here every pending operation is re-polled in the completion run");
+    report.assume("application tasks are polled like an executor would: a parked task is polled again only after its waker fired; at quiescence every parked task is polled once more and one that then makes progress is a lost wake-up");
     let all = std::env::var_os("VERIF_ALLSIGS").is_some();
     let keep = |sig: &str| all || sig.starts_with(prefix) || sig.starts_with("pipe/") || sig.starts_with("panic/");
 
@@ -181,6 +186,8 @@ pub fn run(args: &Args, prefix: &str) -> i32 {
                                 "fc-uni" => true,
                                 "fc-two" => i == 0,
                                 "fc-bidi" => i == 4,
+                                "fc-cancel" => i == 0 || i == 3,
+                                "fc-cancel-back" => i == 0,
                                 _ => false,
                             };
                             if !keep {
